@@ -208,13 +208,20 @@ class GSim(mosaik_api_v3.Simulator):
             d = {}
         else:
             ot, attrs = spec
-            d = {'e': {a: f'{self.sid}@{self.time}.{self.k}' for a in attrs if a in outputs.get('e', [])}}
+            if b.get('reuse_reply'):
+                # a simulator that keeps ONE reply dict and updates it in place (what mosaik does to the object it is handed is
+                # then visible in later replies); 'time' is only written when the script gives an output time
+                d = self.__dict__.setdefault('_reply', {})
+                for key in [x for x in d if x != 'time']: del d[key]
+            else:
+                d = {}
+            d['e'] = {a: f'{self.sid}@{self.time}.{self.k}' for a in attrs if a in outputs.get('e', [])}
             for eid in outputs:
                 if eid != 'e':       # mirror entities produce the same attributes, the value tokens carry their id
                     d[eid] = {a: f'{self.sid}@{self.time}.{self.k}#{eid}' for a in attrs if a in outputs[eid]}
             if _key(self.time, self.k) in b.get('none_outputs', ()):
                 # "no reading": the persistent attribute is produced with the value None
-                for eid in d:
+                for eid in [x for x in d if isinstance(d[x], dict)]:
                     for a in d[eid]:
                         if a in b.get('none_attrs', ('po',)): d[eid][a] = None
             if ot is not None: d['time'] = ot
